@@ -57,3 +57,6 @@ typedef unsigned int uint;
 typedef unsigned long ulong;
 typedef unsigned short ushort;
 typedef unsigned char uchar;
+#ifndef restrict
+#define restrict __restrict__   // OpenCL C / MSL spelling of @restrict
+#endif
